@@ -12,6 +12,13 @@ const NAMES: [&str; 14] = ["a", "b", "c", "d", "e", "f", "row", "column", "x", "
 const GET_VIAS: [&str; 7] = ["ref", "mut", "access", "access_mut", "view_get_ref", "view_get", "boxed_ref"];
 const SET_VIAS: [&str; 3] = ["mut", "access_mut", "view_get_ref_mut"];
 const FIRST_VIAS: [&str; 6] = ["map_mut", "map", "map_with_index", "map_mut_with_index", "iter", "iter_reference_mut"];
+/// whole-view consumers that cannot give up half way (asked with k = number of elements)
+const WHOLE_VIAS: [&str; 19] = [
+    "iter_reference", "iter_with_index", "iter_reference_with_index", "iter_reference_mut_with_index", "access_iter",
+    "access_iter_reference", "access_iter_reference_mut", "first_value", "map_result", "map_with_index_result",
+    "elementwise_left", "elementwise_right", "elementwise_reference_left", "elementwise_reference_right",
+    "elementwise_with_index_left", "elementwise_reference_with_index_right", "eq_left", "eq_right", "eq_view",
+];
 const MAX: usize = usize::MAX;
 
 #[derive(Clone)]
@@ -484,6 +491,11 @@ fn probes(g: &mut Gen, ls: &[usize], full: bool) {
     }
     let how = if g.rng.chance(1, 2) { "display" } else { "display via=access" };
     g.op(how.into());
+    if full || g.rng.chance(1, 3) {
+        // a copy in another order: the names are not known here, `copy` of the view's own order
+        // is asked by the sections that know them
+        g.op("first 1 via=first_value".into());
+    }
     for n in ["a", "b", "x", "row", "zz", "r", "ro", "rows", "colum", "column", "_empty_", "c"] {
         if full || g.rng.chance(1, 4) {
             g.op(format!("length_of {}", n));
@@ -504,6 +516,12 @@ fn probes(g: &mut Gen, ls: &[usize], full: bool) {
             let via = *g.rng.pick(&FIRST_VIAS);
             g.op(format!("first {} via={}", k, via));
             g.count(&format!("first.{}", via));
+        }
+        // a whole-view consumer against the logical content
+        for _ in 0..(if full { 3 } else { 1 }) {
+            let via = *g.rng.pick(&WHOLE_VIAS);
+            g.op(format!("first {} via={}", if via == "first_value" { 1 } else { product }, via));
+            g.count(&format!("whole.{}", via));
         }
     }
     // in range
@@ -868,6 +886,214 @@ fn exhaustive(g: &mut Gen) {
                     t.lines.push((format!("chain {} {} via={}", n, leaf[along].0, via), Some(lens(&shape))));
                     g.count("exhaustive.chain");
                     emit(g, &t, true, false);
+                }
+            }
+        }
+    }
+}
+
+/// Every method of `TensorRef` / `TensorMut` (checked / unchecked × shared / mutable, and the
+/// forms that go through `TensorAccess`, `TensorView`, a boxed borrow) at every coordinate of the
+/// view, every whole-view consumer, the layout claim and its walk.
+fn probes_methods(g: &mut Gen, ls: &[usize]) {
+    let d = ls.len();
+    g.op("shape".into());
+    g.op("layout".into());
+    g.op("memorder".into());
+    let product: usize = ls.iter().product();
+    let inside: Vec<Vec<usize>> = if product <= 48 {
+        cartesian(&ls.iter().map(|&l| (0..l).collect()).collect::<Vec<_>>())
+    } else {
+        (0..32).map(|_| ls.iter().map(|&l| g.rng.below(l)).collect()).collect()
+    };
+    for idx in &inside {
+        for via in ["ref", "mut", "unchecked", "unchecked_mut", "access", "access_mut", "view_get_ref", "view_get", "boxed_ref"] {
+            g.op(format!("get {} via={}", show_idx(idx), via));
+        }
+        g.count_n("methods.get", 9);
+        let via = *g.rng.pick(&["mut", "unchecked_mut", "access_mut", "view_get_ref_mut"]);
+        g.op(format!("set {} via={}", show_idx(idx), via));
+    }
+    for dim in 0..d {
+        for bad in [ls[dim], MAX] {
+            let mut idx: Vec<usize> = ls.iter().map(|&l| g.rng.below(l)).collect();
+            idx[dim] = bad;
+            for via in ["ref", "mut", "access", "access_mut", "boxed_ref"] {
+                g.op(format!("get {} via={}", show_idx(&idx), via));
+            }
+            g.op(format!("set {} via=mut", show_idx(&idx)));
+        }
+    }
+    if product <= 4096 {
+        for via in WHOLE_VIAS {
+            g.op(format!("first {} via={}", if via == "first_value" { 1 } else { product }, via));
+        }
+        for via in FIRST_VIAS {
+            let k = g.rng.below(product + 1);
+            g.op(format!("first {} via={}", k, via));
+        }
+        g.op("display".into());
+    }
+}
+
+fn emit_methods(g: &mut Gen, t: &Term) {
+    g.op("@ case".into());
+    g.count("case");
+    g.count("case.methods");
+    let mut leaf_id = 0;
+    let n = t.lines.len();
+    for (k, (line, ls)) in t.lines.iter().enumerate() {
+        let line = if line.contains(" ? ") {
+            leaf_id += 1;
+            line.replacen(" ? ", &format!(" {} ", leaf_id), 1)
+        } else {
+            line.clone()
+        };
+        g.op(line);
+        if k + 1 == n {
+            match ls {
+                Some(ls) => probes_methods(g, ls),
+                None => g.op("shape".into()),
+            }
+        }
+    }
+}
+
+const PAIR_KINDS: [&str; 11] = ["range", "mask", "index", "expand", "rename", "reverse", "access", "transpose", "stack", "chain", "matrixof"];
+
+fn apply_kind(g: &mut Gen, t: Term, kind: &str) -> Option<Term> {
+    let d = t.shape.len();
+    let ok = match kind {
+        "matrixof" => d == 2,
+        "index" | "chain" => d >= 1,
+        "expand" | "stack" => d < 6,
+        "mask" => t.shape.iter().any(|x| x.1 >= 2),
+        _ => true,
+    };
+    if !ok {
+        return None;
+    }
+    Some(match kind {
+        "stack" | "chain" => combine(g, t, kind),
+        _ => apply(g, t, kind),
+    })
+}
+
+/// every adaptor alone and every ordered pair of adaptors (the lower one is then asked through
+/// the trait methods the upper one calls), over a 3-dimensional and a 2-dimensional leaf
+fn pairs(g: &mut Gen) {
+    let rounds = if g.thorough { 5 } else { 1 };
+    for _ in 0..rounds {
+        for leaf in [vec![("a", 2usize), ("b", 3usize), ("c", 2usize)], vec![("a", 3), ("b", 2)]] {
+            for lower in PAIR_KINDS {
+                let base = Term { lines: leaf_of(&leaf).lines, shape: leaf_of(&leaf).shape };
+                let one = match apply_kind(g, base, lower) {
+                    Some(t) => t,
+                    None => continue,
+                };
+                g.count("pairs.single");
+                emit_methods(g, &one);
+                for upper in PAIR_KINDS {
+                    if let Some(two) = apply_kind(g, one.clone(), upper) {
+                        if two.lines.len() > 40 {
+                            continue;
+                        }
+                        g.count("pairs.pair");
+                        emit_methods(g, &two);
+                    }
+                }
+            }
+        }
+    }
+}
+
+/// Layout claims under reorderings: every permutation as `TensorAccess`, as `TensorTranspose`,
+/// one over the other in both orders (rotations of 3 and 4 dimensions among them), with a rename
+/// in between, over tensors with pairwise different lengths; the claim and the walk in the
+/// claimed order (recognised by address) are asked at every level, then a few whole-view
+/// consumers and a copy.
+fn rotations(g: &mut Gen) {
+    let leaves: Vec<Vec<(&str, usize)>> = vec![vec![("a", 2), ("b", 3), ("c", 4)], vec![("a", 2), ("b", 3), ("c", 1), ("d", 2)]];
+    for leaf in &leaves {
+        let d = leaf.len();
+        let base = leaf_of(leaf);
+        let all = permutations(d);
+        // at 4 dimensions: the rotations and a few others (all of them in the thorough tier)
+        let chosen: Vec<Vec<usize>> = if d == 3 || g.thorough {
+            all.clone()
+        } else {
+            all.iter().filter(|p| {
+                let fixed = (0..d).filter(|&i| p[i] == i).count();
+                fixed <= 1 && !(0..d).all(|i| p[p[i]] == i)
+            }).cloned().collect()
+        };
+        let access_of = |sh: &Shape, p: &Vec<usize>| -> (String, Shape) {
+            let req: Vec<String> = p.iter().map(|&i| sh[i].0.clone()).collect();
+            (format!("access {}", join(&req)), p.iter().map(|&i| sh[i].clone()).collect())
+        };
+        let transpose_of = |sh: &Shape, p: &Vec<usize>| -> (String, Shape) {
+            let req: Vec<String> = p.iter().map(|&i| sh[i].0.clone()).collect();
+            (format!("transpose {}", join(&req)), (0..sh.len()).map(|i| (sh[i].0.clone(), sh[p[i]].1)).collect())
+        };
+        for p in &chosen {
+            for q in &chosen {
+                for order in 0..4 {
+                    let mut t = base.clone();
+                    let steps: Vec<(bool, &Vec<usize>)> = match order {
+                        0 => vec![(true, p), (false, q)],
+                        1 => vec![(false, p), (true, q)],
+                        2 => vec![(true, p), (true, q)],
+                        _ => vec![(false, p), (false, q)],
+                    };
+                    // only a sample of the same-kind pairs
+                    if order >= 2 && !g.rng.chance(1, 4) {
+                        continue;
+                    }
+                    for (k, (is_access, perm)) in steps.iter().enumerate() {
+                        let (line, sh) = if *is_access { access_of(&t.shape, perm) } else { transpose_of(&t.shape, perm) };
+                        t = with_line(&t, line, Some(sh));
+                        t.lines.push(("layout".into(), None));
+                        t.lines.push(("memorder".into(), None));
+                        if k == 0 && g.rng.chance(1, 3) {
+                            let fresh: Vec<String> = (0..d).map(|i| NAMES[8 + (i + 1) % 6].to_string()).collect();
+                            let sh: Shape = (0..d).map(|i| (fresh[i].clone(), t.shape[i].1)).collect();
+                            t = with_line(&t, format!("rename {}", join(&fresh)), Some(sh));
+                        }
+                    }
+                    // the last `layout` / `memorder` pair is asked by the probes below
+                    t.lines.pop();
+                    t.lines.pop();
+                    g.count(&format!("rotations.D={}", d));
+                    g.op("@ case".into());
+                    g.count("case");
+                    let mut leaf_id = 0;
+                    for (line, _) in &t.lines {
+                        let line = if line.contains(" ? ") {
+                            leaf_id += 1;
+                            line.replacen(" ? ", &format!(" {} ", leaf_id), 1)
+                        } else {
+                            line.clone()
+                        };
+                        g.op(line);
+                    }
+                    let ls = lens(&t.shape);
+                    let n: usize = ls.iter().product();
+                    g.op("shape".into());
+                    g.op("layout".into());
+                    g.op("memorder".into());
+                    for _ in 0..2 {
+                        let via = *g.rng.pick(&WHOLE_VIAS);
+                        g.op(format!("first {} via={}", if via == "first_value" { 1 } else { n }, via));
+                    }
+                    let r = &chosen[g.rng.below(chosen.len())];
+                    let req: Vec<String> = r.iter().map(|&i| t.shape[i].0.clone()).collect();
+                    let kind = if g.rng.chance(1, 2) { "reorder" } else { "transpose" };
+                    g.op(format!("copy_{} {}", kind, join(&req)));
+                    for _ in 0..4 {
+                        let idx: Vec<usize> = ls.iter().map(|&l| g.rng.below(l)).collect();
+                        let via = *g.rng.pick(&["ref", "mut", "unchecked", "unchecked_mut"]);
+                        g.op(format!("get {} via={}", show_idx(&idx), via));
+                    }
                 }
             }
         }
@@ -1558,6 +1784,10 @@ pub fn gen(g: &mut Gen, static_keys: &[&str], static_ops: &dyn Fn(&str) -> Vec<S
     large(g);
     // 3d. adaptors that change nothing, once and twice
     noops(g);
+    // 3e. every trait method and every whole-view consumer on every adaptor and pair of adaptors
+    pairs(g);
+    // 3f. layout claims under reorderings of reorderings
+    rotations(g);
     // 4. random compositions
     let (max_depth, per_depth) = if g.thorough { (5, 9000) } else { (3, 1200) };
     for depth in 0..=max_depth {
